@@ -538,7 +538,8 @@ impl PW {
             }
         }
         if self.ov.is_some() && self.views[0] != self.contents() {
-            sink.oracle_fail("C06", &format!("source stream Pending with replica {:?}, contents {:?}", self.views[0], self.contents()));
+            // batched: the committed transactions have all been handed on, the view below the chain is the current top-level state (C13)
+            sink.oracle_fail(if self.batched { "C06,C13" } else { "C06" }, &format!("source stream Pending with replica {:?}, contents {:?}", self.views[0], self.contents()));
         }
         for k in 0..n {
             let sp = self.specs[k].clone();
